@@ -15,7 +15,7 @@ def cellRes (r : Option String × UInt64) : Option Nat :=
 
 /-- core.(*GasPool).SubGas: error = ErrGasLimitReached (model `none`), otherwise the pool decreases by `amount`. -/
 theorem GasPool_SubGas_translated_eq (gp amount : UInt64) :
-    cellRes (Translated.GasPool_SubGas gp amount) = Aqv.Tx.subGas gp.toNat amount.toNat := by
+    cellRes (Translated.GasPool_SubGas (gp := gp) amount) = Aqv.Tx.subGas gp.toNat amount.toNat := by
   simp only [Translated.GasPool_SubGas, Aqv.Tx.subGas]
   by_cases h : gp < amount
   · have h' : gp.toNat < amount.toNat := by simpa [UInt64.lt_iff_toNat_lt] using h
@@ -54,7 +54,7 @@ theorem GasPool_Gas_translated_eq (gp : UInt64) : Translated.GasPool_Gas gp = gp
 /-- core.(*StateTransition).useGas: `vm.ErrOutOfGas` iff the counter is below `amount` (the model's `m.gas < ig` test for the
     intrinsic gas), otherwise the counter decreases. -/
 theorem StateTransition_useGas_translated_eq (gas amount : UInt64) :
-    cellRes (Translated.StateTransition_useGas gas amount)
+    cellRes (Translated.StateTransition_useGas (st_gas := gas) amount)
       = if gas.toNat < amount.toNat then none else some (gas.toNat - amount.toNat) := by
   simp only [Translated.StateTransition_useGas]
   by_cases h : gas < amount
@@ -63,4 +63,10 @@ theorem StateTransition_useGas_translated_eq (gas amount : UInt64) :
   · have h' : ¬ gas.toNat < amount.toNat := by simpa [UInt64.lt_iff_toNat_lt] using h
     have : amount ≤ gas := by simpa [UInt64.le_iff_toNat_le] using (Nat.le_of_not_lt h')
     simp [h, h', cellRes, UInt64.toNat_sub_of_le _ _ this]
+
+/-- core.(*StateTransition).gasUsed = initialGas − gas (uint64; no wrap while gas ≤ initialGas, which TransitionDb maintains). -/
+theorem StateTransition_gasUsed_translated_eq (gas initialGas : UInt64) (h : gas ≤ initialGas) :
+    (Translated.StateTransition_gasUsed (st_gas := gas) (st_initialGas := initialGas)).toNat = initialGas.toNat - gas.toNat := by
+  simp only [Translated.StateTransition_gasUsed]
+  exact UInt64.toNat_sub_of_le _ _ h
 end Aqv.Lemmas.Translated
